@@ -196,7 +196,7 @@ PLANS["C03"] = {
     "mc": [{
         "module": "MCRender",
         "quick": _textmc('{"e", "a", "m"}', 2, 2, "{}", '{"default", "none"}', "{0, 1, 2}"),
-        "thorough": _textmc('{"e", "a", "w", "m"}', 3, 2, "{}", '{"default", "none"}', "{0, 1, 2}"),
+        "thorough": _textmc('{"e", "a", "w", "m"}', 2, 2, "{}", '{"default", "none"}', "{0, 1, 2}"),
         "subst": {"quick": [{"n": 1}], "thorough": [{"n": 1}, {"n": 2}]},
     }, {
         # one line per text line of the tallest cell, also when an item understates / overstates its height
@@ -220,7 +220,7 @@ PLANS["C04"] = {
     "mc": [{
         "module": "MCRender",
         "quick": _textmc('{"a", "m", "W5", "H3", "WH"}', 1, 2, '{"vL", "vR", "vC"}', '{"default"}', "{1}"),
-        "thorough": _textmc('{"a", "m", "W5", "W1", "W0", "H3", "H1", "WH"}', 1, 2, '{"vL", "vR", "vC"}', '{"default", "none"}', "{2}"),
+        "thorough": _textmc('{"a", "m", "W5", "W1", "W0", "H3", "H1", "WH"}', 1, 2, '{"vL", "vR", "vC"}', '{"default", "none"}', "{1}"),
         "subst": {"quick": [{"n": 1}], "thorough": [{"n": 1}]},
     }],
     "random": [{"gen": gens.gen_text_sized}],
@@ -239,7 +239,7 @@ PLANS["C05"] = {
     "mc": [{
         "module": "MCRender",
         "quick": _rmc("csv", '{"E", "x", "Q", "CQ"}', 2, 2, "{}", "{}", "{0, 1, 2}"),
-        "thorough": _rmc("csv", '{"E", "x", "Q", "C", "N", "RN", "QQ"}', 2, 2, "{}", "{}", "{0, 1, 2}"),
+        "thorough": _rmc("csv", '{"E", "x", "Q", "C", "RN", "QQ"}', 2, 2, "{}", "{}", "{0, 1, 2}"),
         "run_opts": {"extra": ["-bytes"]},
         "subst": {"quick": [{"n": 1, "pool": "csv"}], "thorough": [{"n": 1, "pool": "csv"}, {"n": 2, "pool": "csv"}]},
     }],
@@ -258,7 +258,7 @@ PLANS["C06"] = {
     "mc": [{
         "module": "MCRender",
         "quick": _rmc("html", '{"E", "x", "LT"}', 2, 2, "{}", "{}", "{0, 1, 2}", '{"none", "all", "gen0", "regen"}'),
-        "thorough": _rmc("html", '{"E", "x", "LT", "AMP", "Q", "SC", "SP"}', 2, 2, "{}", "{}", "{0, 1, 2}", '{"none", "all", "gen0", "regen"}'),
+        "thorough": _rmc("html", '{"E", "x", "LT", "AMP", "SC"}', 2, 2, "{}", "{}", "{0, 1, 2}", '{"none", "all", "gen0", "regen"}'),
         "subst": {"quick": [{"n": 1, "pool": "html"}], "thorough": [{"n": 1, "pool": "html"}, {"n": 2, "pool": "html"}]},
     }],
     "random": [{"gen": gens.gen_html}],
@@ -281,7 +281,7 @@ PLANS["C07"] = {
         # contents, header error cases and skipable assignments on one or two rows
         {"module": "MCRender",
          "quick": _rmc("json", '{"E", "x", "obj"}', 1, 2, '{"vtrue", "vfalse", "vbad"}', "{}", "{0, 1, 2}"),
-         "thorough": _rmc("json", '{"E", "x", "U", "obj", "obje", "nil", "num"}', 2, 2, '{"vtrue", "vfalse", "vbad"}', "{}", "{0, 1, 2}"),
+         "thorough": _rmc("json", '{"E", "x", "U", "obj", "obje", "nil", "num"}', 1, 2, '{"vtrue", "vfalse", "vbad"}', "{}", "{0, 1, 2}"),
          "subst": {"quick": [{"n": 1, "pool": "json"}], "thorough": [{"n": 1, "pool": "json"}]}},
     ],
     "random": [{"gen": gens.gen_json}],
